@@ -80,10 +80,18 @@ def main():
                 old = {}
         if skip_tests and "tests_with_change" in old:
             meta["tests_with_change"] = old["tests_with_change"]
+        if old.get("status"):
+            meta["status"] = old["status"]
         hist = old.get("history", [])
         if old.get("checks"):
             hist.append({"at": old.get("evaluated_at"), "caught_by": old.get("caught_by")})
         meta["history"] = hist
+        try:
+            meta["what"] = json.load(open("/verif/seeded/descriptions.json")).get(meta["id"], "")
+        except Exception:
+            pass
+        if os.path.exists(src + "/%s.diff.orig" % m):
+            meta["ported"] = "the agent's diff no longer applied after the fix: commits; the same change was re-made on the current HEAD"
         meta["evaluated_at"] = time.strftime("%Y-%m-%dT%H:%M:%S")
         json.dump(meta, open(dest + "/meta.json", "w"), indent=1)
         print(json.dumps({k: meta.get(k) for k in ("id", "applies", "caught_by")}),
